@@ -2,13 +2,16 @@ package main
 
 import (
 	"fmt"
+	"os"
 
 	"verif/harness/internal/casefile"
 	"verif/harness/internal/rng"
 )
 
 func exploreMain(seed uint64) {
-	w, _ := casefile.New("/tmp/c15-explore-out", "C15", "", 100)
+	out, _ := os.MkdirTemp("", "verif-c15-explore-")
+	defer os.RemoveAll(out)
+	w, _ := casefile.New(out, "C15", "", 100)
 	d := newDriver(w, rng.New(seed), "quick")
 	defer d.cleanup()
 	for _, sorted := range []bool{true, false} {
